@@ -188,6 +188,15 @@ func observe(in nsx.Input) (ob runObs) {
 	return runProgram(prog, in)
 }
 
+func safeValueFromString(t machine.Type, raw string) (v machine.Value, err error) {
+	defer func() {
+		if r := recover(); r != nil {
+			err = fmt.Errorf("panic: %v", r)
+		}
+	}()
+	return machine.NewValueFromString(t, raw)
+}
+
 // ---- Coq rendering -------------------------------------------------------------------------------------
 
 var types = []struct {
@@ -228,7 +237,7 @@ func coqCase(in nsx.Input, ast *nsx.Script, ob runObs) string {
 	}
 	for _, raw := range vx.SortedKeys(raws) {
 		for _, t := range types {
-			v, err := machine.NewValueFromString(t.t, raw)
+			v, err := safeValueFromString(t.t, raw)
 			if err == nil {
 				parse = append(parse, fmt.Sprintf("(%s, %s, Some %s)", t.c, n.St(raw), n.Value(v)))
 			}
@@ -452,6 +461,12 @@ func oracles(r *vx.Run, in nsx.Input, ast *nsx.Script, ob runObs) {
 			}
 			if amt.Cmp(avail) > 0 {
 				r.FailP("C01", "overdraw", in, fmt.Sprintf("posting %d takes %s from %s which has %s available", i, amt, p.Source, avail), size)
+				for _, st := range ast.Stmts {
+					if st.K == "send" && st.All != nil {
+						r.FailP("C03", "send-all-moves-more-than-its-sources-can-provide", in, fmt.Sprintf("posting %d takes %s from %s which can provide %s", i, amt, p.Source, avail), size)
+						break
+					}
+				}
 				break
 			}
 		}
@@ -699,7 +714,11 @@ func boundaryFamily() []nsx.Input {
 				if i1 == 1 {
 					lim1 += 5
 				}
-				for _, x1 := range []int64{0, 3, lim1} {
+				x1s := []int64{0, 3, lim1}
+				if i1 == 2 {
+					x1s = append(x1s, lim1+7) // the unbounded source really goes below its balance
+				}
+				for _, x1 := range x1s {
 					for _, d := range []int64{-1, 0, 1, 5, 6} {
 						lim2 := b - x1
 						if i2 == 1 {
